@@ -37,6 +37,7 @@ def gen_tree(rng, main_ignore, main_life, main_code):
 
 WHAT = {"term-at-zombie": "SIGTERM arrived after the step's main process had exited, before the runner reaped it (other members of the group still running)",
         "timeout": "the regress timeout expired", "term-at-fork": "SIGTERM arrived right after the step was forked",
+        "term-at-handshake": "SIGTERM arrived while the runner waited for the step's process group to appear",
         "term-at-waitpid": "SIGTERM arrived just before the runner started waiting", "term-wait": "SIGTERM arrived while the step ran",
         "term-wait-ignore": "SIGTERM arrived while the step ran (main process ignores it)"}
 
@@ -59,7 +60,7 @@ def run_case(exe, proc, shim, root, case):
     os.makedirs(bdir)
     open(os.path.join(root, ".running"), "w").write(bdir + "\n")
     env = dict(os.environ, EXECDIR=os.path.join(root, "exec"))
-    if ev in ("term-at-waitpid", "term-at-fork", "term-at-zombie"):
+    if ev in ("term-at-waitpid", "term-at-fork", "term-at-zombie", "term-at-handshake"):
         env["LD_PRELOAD"] = shim
         env["C07_RAISE_AT"] = ev.split("-")[-1]
 
@@ -128,8 +129,8 @@ def run(ctx):
     distinct = set()
     reqs, wants, infos = [], [], []
     plan = [("none", 0), ("term-wait", 0), ("term-at-waitpid", 0), ("term-at-fork", 0), ("timeout", 0), ("term-wait-ignore", 0), ("term-wait", 1), ("timeout", 1),
-            ("none", 1), ("term-wait", 0), ("term-at-waitpid", 1), ("term-wait-ignore", 1), ("term-at-zombie", 0)]
-    n = ctx.n(13, 104)
+            ("none", 1), ("term-wait", 0), ("term-at-waitpid", 1), ("term-wait-ignore", 1), ("term-at-zombie", 0), ("term-at-handshake", 0)]
+    n = ctx.n(14, 112)
     cases = []
     for t in range(n):
         ev, inherit = plan[t % len(plan)]
@@ -184,7 +185,9 @@ def run(ctx):
             continue
         k = {"term-wait": 3, "term-wait-ignore": 3, "term-at-fork": 0, "term-at-waitpid": 0, "timeout": 10}.get(ev)
         sig = "-" if k is None else "%d:%s" % (k, "alrm" if ev == "timeout" else "term")
-        reqs.append("runner 100000 %s %d:e%d %s 0:s9" % (sig, case["main_life"] // 100 + 1, main_code, "-" if main_ignore else "0:s15"))
+        # a request caught while the runner waits for the process group: Runner.Fork.hsSig (step_fork's handshake)
+        hs = " - term" if ev == "term-at-handshake" else ""
+        reqs.append("runner 100000 %s %d:e%d %s 0:s9%s" % (sig, case["main_life"] // 100 + 1, main_code, "-" if main_ignore else "0:s15", hs))
         wants.append("%s %s" % (rc, ",".join(acts + ["reap"])))
         infos.append(info)
     ans = ctx.model(reqs) if reqs else []
@@ -194,7 +197,7 @@ def run(ctx):
     ctx.cov.update(dict(
         evaluations=n, distinct_nontrivial=len(distinct),
         rule="real robsd-exec on generated process trees (1-7 members, depth <= 3, members ignoring SIGTERM, members exiting early, a main process ignoring SIGTERM that starts a default-disposition member after the SIGTERM wave; runner started with SIGTERM/SIGALRM ignored by its invoker); "
-             "events: none, SIGTERM while the step runs (three offsets), SIGTERM right after fork() and right before the first waitpid() (LD_PRELOAD shim), regress "
+             "events: none, SIGTERM while the step runs (three offsets), SIGTERM right after fork(), while the runner waits for the new process group (the child's setsid() held back), right before the first waitpid() and on entry to the waitpid() that finds the main process a zombie (LD_PRELOAD shim), regress "
              "timeout of 1s; observed: exit status, diagnostics, /proc state of every member after the runner returned, completion marker; compared with the "
              "property and with Runner.run on the corresponding environment",
         samples=[dict(request=q, impl=w) for q, w in list(zip(reqs, wants))[:3]],
